@@ -485,6 +485,11 @@ func readDnsMsgFromBufio(reader *bufio.Reader, timeout time.Duration, conn net.C
 	if err := msg.Unpack(data); err != nil {
 		return nil, 0, err
 	}
+	// A response is not DNS client traffic: leave it in the reader so that the
+	// caller's fall-through to normal TCP handling relays it with the rest.
+	if msg.Response {
+		return nil, 0, fmt.Errorf("DNS message is a response, not a query")
+	}
 
 	// Consume the data by discarding it
 	_, err = reader.Discard(int(2 + length))
